@@ -96,6 +96,9 @@ impl Default for Ssse3 {
 impl Ssse3 {
     #[target_feature(enable = "ssse3")]
     unsafe fn mul_ssse3(&self, x: &mut [[u8; 64]], log_m: GfElement) {
+        #[cfg(feature = "verif-hooks")]
+        crate::verif_hooks::trace(crate::verif_hooks::ISA_SSSE3, crate::verif_hooks::PRIM_MUL);
+
         let lut = &self.mul128[log_m as usize];
 
         for chunk in x.iter_mut() {
@@ -268,6 +271,9 @@ impl Ssse3 {
         truncated_size: usize,
         skew_delta: usize,
     ) {
+        #[cfg(feature = "verif-hooks")]
+        crate::verif_hooks::trace(crate::verif_hooks::ISA_SSSE3, crate::verif_hooks::PRIM_FFT);
+
         // Drop unsafe privileges
         self.fft_private(data, pos, size, truncated_size, skew_delta);
     }
@@ -420,6 +426,9 @@ impl Ssse3 {
         truncated_size: usize,
         skew_delta: usize,
     ) {
+        #[cfg(feature = "verif-hooks")]
+        crate::verif_hooks::trace(crate::verif_hooks::ISA_SSSE3, crate::verif_hooks::PRIM_IFFT);
+
         // Drop unsafe privileges
         self.ifft_private(data, pos, size, truncated_size, skew_delta);
     }
@@ -482,6 +491,9 @@ impl Ssse3 {
 impl Ssse3 {
     #[target_feature(enable = "ssse3")]
     unsafe fn eval_poly_ssse3(erasures: &mut [GfElement; GF_ORDER], truncated_size: usize) {
+        #[cfg(feature = "verif-hooks")]
+        crate::verif_hooks::trace(crate::verif_hooks::ISA_SSSE3, crate::verif_hooks::PRIM_EVAL_POLY);
+
         utils::eval_poly(erasures, truncated_size);
     }
 }
